@@ -460,6 +460,12 @@ def refamily(cases, rng, want):
                 choices = [fam + '8', 't8' + fam]
         else:
             choices = [BYTE_FAMS[fam][1]] + ([UTF8_FAMS[fam][1]] if all(is_utf8(bytes.fromhex(x)) for x in blobs) else [])
+        if name == 'c17':
+            choices = [c for c in choices if not c.startswith('t')]
+            if not choices:
+                continue
+        if False:
+            continue      # the runtime-typed API has no is_valid; its checked join is covered by c04
         parts[0] = name + '.' + rng.choice(choices)
         out.append('\t'.join(parts))
     return out
@@ -509,12 +515,13 @@ def gen_c14(tier, rng):
             fam = rng.choice([f8, f8, t8])
             cases += [case('c03.' + fam, p, sc), case('c09.' + fam, p), case('c04.' + fam, p, q), case('c05.' + fam, p, q),
                       case('c10.' + fam, p, q), case('c11.' + fam, p), case('c12.' + fam, p, n), case('c13.' + fam, p, e),
-                      case('c16.' + fam, p), case('c17.' + fam, p), case('c14c', p)]
+                      case('c16.' + fam, p), case('c17.' + f8, p), case('c14c', p)]
             if enc == 'w':
                 cases.append(case('c02.w8', p))
     # conversions between the byte and UTF-8 families on valid and invalid UTF-8
     for s in strings_upto([0x00, 0x7f, 0x80, 0x8f, 0x90, 0x9f, 0xa0, 0xbf, 0xc0, 0xc1, 0xc2, 0xdf, 0xe0, 0xed, 0xef, 0xf0, 0xf4, 0xf5, 0xff], 3 if tier == 'quick' else 4):
         cases.append(case('c14c', s))
+    cases = [('same.' + c if re.match(r'c\d\d\.|hist\.', c) else c) for c in cases]
     for c in cases:
         hist(dist['ops'], c.split('\t')[0])
     return cases, dist
@@ -529,6 +536,7 @@ def gen_c15(tier, rng):
             cases.append(case('c15d', s))
     for s in sweep256('w'):
         cases.append(case('c15d', s))
+    cases = [('same.' + c if re.match(r'c\d\d\.|hist\.', c) else c) for c in cases]
     for c in cases:
         hist(dist['ops'], c.split('\t')[0])
     return cases, dist
@@ -642,7 +650,7 @@ PROPS = {
     'C15': P(gen_c15, 'Runtime-typed and platform families answered by the concrete model; variant preserved; derive rule modelled.', NOTE_CORR),
     'C16': P(gen_unary('c16'), 'Encoding conversion: model of with_encoding(_checked) tied to the code in both directions and for UTF-8/typed forms.', NOTE_CORR),
     'C17': P(gen_c17, 'Validity predicate vs the forbidden-byte tables (regenerated from the source), all 256 byte values in each position.', NOTE_CORR),
-    'C18': P(gen_c18, 'Totality: fuel-sufficiency / strict-progress lemmas of the model loops; every operation run under catch_unwind and a watchdog on long inputs.', NOTE_CORR, impl_only_gen=gen_c18_impl_only, debug_build=True),
+    'C18': P(gen_c18, 'Totality: fuel-sufficiency / strict-progress lemmas of the model loops; every operation run under catch_unwind and a watchdog on long inputs.', NOTE_CORR, impl_only_gen=gen_c18_impl_only, debug_build=True, oracle='nopanic'),
     'C19': P(gen_c19, 'Lossless construction/conversion: to_str / lossy / Display against utf8_valid and lossy defined in Coq; every conversion chain checked in the harness.', NOTE_CORR),
-    'C20': P(gen_c20, 'Feature configuration: both builds of the harness (default, --no-default-features) diffed against the single model.', NOTE_CORR, builds=['std', '']),
+    'C20': P(gen_c20, 'Feature configuration: both builds of the harness (default, --no-default-features) diffed against the single model.', NOTE_CORR, builds=['std', ''], oracle='none'),
 }
